@@ -1,7 +1,8 @@
 """C19 — pixel, jitter and smear blurs are flux-preserving convolutions on any shape.
 
 Tie: Model/Blur.lean (kernels from the fftfreq index map, |ifft2(fft2(img)·K)|, renormalisation) run at doubles by the
-driver (op c19.blur) and compared with the real lentil.detector.pixel / lentil.convolvable.jitter / smear.
+driver (op c19.blur; calls that omit pixelscale / oversample run pixelDefault / jitterDefault / smearDefault, which take the defaults
+regenerated from the signatures) and compared with the real lentil.detector.pixel / lentil.convolvable.jitter / smear.
 Oracle: independent Fourier-domain convolution with the analytic transfer function (frequency index map restated here),
 shape, non-negativity, commutation with np.roll, zero-extent identity, preserved total, physical-units equivalence."""
 import numpy as np
@@ -13,7 +14,7 @@ LEVEL_TEXT = ('Lean 4 theorems about the executable blur model at ℂ/ℝ whose 
               'angles, pixel scales and oversampling factors: kernel shape = image shape (kernel_shape_eq_image_shape: rfl checks of the regenerated shape expressions — a compile-time tie that fails when the source swaps the axes, not a statement about NumPy broadcasting); the kernels are the separable sinc, '
               'exp(−2π²σ²ρ²) and the directional sinc in closed form; gain 1 at zero frequency; outputs non-negative for every image of non-negative total; blurs commute with '
               'circular shifts; zero extent is the identity on every non-negative image; jitter/smear keep the total of every image — the all-zero image included in all three: the zero-total guard `if np.sum(out) == 0: return out` is regenerated from the sources (Gen.bw…RenormGuard) and the model follows it, so no statement leans on x/0 = 0; only '
-              'extent/pixelscale·oversample enters (unit invariance); pixel and jitter kernels are Hermitian on every shape and smear on odd axes, hence the '
+              'extent/pixelscale·oversample enters (unit invariance), and the call that expresses the extent in samples by omitting pixelscale and oversample — their defaults are regenerated from the signatures (Gen.bw…DefaultPixelscale / …DefaultOversample) — is that blur (samples_call_is_default_call); pixel and jitter kernels are Hermitian on every shape and smear on odd axes, hence the '
               'filtered image is real and the output equals the exact circular convolution wherever that is non-negative (total kept) — pixel, jitter: all '
               'shapes; smear: odd×odd; and the same for the functions as the sources compose them, renormalisation and zero-total guard included (blurs_return_nonneg_convolution) — with a proved bound on even axes — at most the mean modulus of the image\'s own spectrum on the Nyquist row/column, before and after renormalisation — and exactness for images with no content on those lines (smear_exact_when_nyquist_free); the convolution is the spatial circular convolution with ifft2(K). The driver runs '
               'these very definitions at doubles against the real functions; the composition abs∘ifft2∘(·kernel)∘fft2, the renormalisation expression, the '
@@ -27,7 +28,7 @@ GEN = ['BlurWiring', 'Extent', 'FieldIdx', 'FieldMerge', 'FieldDispatch', 'Norma
 OPS = ['C01', 'C05', 'C19', 'C17']
 RULE = ('cases: non-negative images with rows, cols drawn independently from 1..8 (thorough 1..12; forced 1xn, nx1, even/odd, non-square), '
         'one case in eight has an axis of a non-fast FFT length 13/17/19/23/29/31; smooth-positive / sparse point-source / constant images; pixel with oversample 1..5, jitter with scale 0..1.5 px, smear with '
-        'distance 0..4 px (tail to 8) and angle in [0,360) incl. 0/45/90, also angle=None under a seeded global generator; integer and fractional oversampling; default arguments; pixelate; extents also given in physical units with a pixel scale; the call is made on the caller\'s own array; circular shifts '
+        'distance 0..4 px (tail to 8) and angle in [0,360) incl. 0/45/90, also angle=None under a seeded global generator; integer and fractional oversampling; default arguments (the model then runs the default-call definitions over the regenerated defaults); pixelate; extents also given in physical units with a pixel scale; the call is made on the caller\'s own array; circular shifts '
         'of either sign; zero extent. distinct = (kind, shape, parameters, roll); non-trivial = non-square or oversample ≠ 1 or '
         'physical units (outside what the test-suite samples) A ≈5 % sample (search tier: a leading block of 220) comes from an extremes stream: pixel scales 1e-12 … 1e-8 and 1e3 … 1e9 with multi-pixel extents, int16/int32/uint8/uint16/uint32/int64 frames at the limits of their dtype (totals beyond 2³¹), image amplitudes 1e-100 … 1e9, extents 0 / 5e-324 / 1e-300 / 25–60 px, frames of 257–1024 samples along one axis (search only); all tolerances are relative to Σ img. About 5 % of jitter/smear cases use a negative pixel scale. pixelate cases are compared with the rescale contract evaluated on the model\'s pixel output at the C17 model\'s interpolation grid.')
 TRUSTED = ['scipy.ndimage order-3 spline interpolation (mode nearest) inside util.rescale, used by pixelate: trusted, compared on the model\'s pixel output only',
@@ -259,6 +260,8 @@ def requests(c, io):
          'pixelscale': fbits(float(c['pixelscale'])), 'oversample': fbits(float(c['oversample']))}
     if c['kind'] != 'pixel': r['extent'] = fbits(c['extent'])
     if c['kind'] == 'smear': r['angle'] = fbits(c['angle'])
+    # the call omits pixelscale / oversample: the model takes the defaults regenerated from the signatures (Gen.bw…Default…)
+    if c.get('defaults') and not c.get('pixelate') and 'random_angle_seed' not in c: r['defaults'] = True
     if c.get('pixelate'):
         # pixelate = rescale(pixel(img, os), 1/os): the interpolation grid comes from the C17 model (Gen.rescaleCoordY/X, exact rationals)
         from fractions import Fraction
